@@ -152,8 +152,21 @@ func GoProc(name string, proc int, f func()) *Thread {
 	return t
 }
 
+// GoLazy starts a non-daemon thread whose action may happen at any moment (a fault, a Close racing with traffic): it
+// is lazy FROM ITS CREATION - by default it starts only when nothing else can run, and starting it earlier, at any
+// scheduling step, is exactly one deviation. (A thread that calls AnyMoment as its first statement is lazy only from
+// the moment it first runs, which by default is whenever the threads created before it block: taking it at a chosen
+// step then costs two deviations - one to get it to AnyMoment, one to take it.)
+func GoLazy(name string, proc int, f func()) *Thread {
+	t := GoNamed(name, f, true)
+	if t != nil {
+		t.Proc = proc
+	}
+	return t
+}
+
 // GoNamed starts a new named thread.
-func GoNamed(name string, f func()) *Thread {
+func GoNamed(name string, f func(), lazy ...bool) *Thread {
 	x := X
 	if x == nil {
 		go f()
@@ -163,6 +176,7 @@ func GoNamed(name string, f func()) *Thread {
 		return nil
 	}
 	t := &Thread{ID: len(x.threads), Name: name, fn: f, wake: make(chan struct{}, 1), exited: make(chan struct{}), idleTo: -1, born: x.nsteps}
+	t.lazy = len(lazy) > 0 && lazy[0]
 	if x.cur != nil {
 		t.Proc = x.cur.Proc
 	}
@@ -186,6 +200,7 @@ func (x *Exec) spawn(t *Thread) {
 	go func() {
 		defer close(t.exited)
 		<-t.wake
+		t.lazy = false
 		if x.aborting {
 			return
 		}
